@@ -386,14 +386,15 @@ class Replica:
             if n not in self.acls or pos < 1 or pos > len(self.acls[n]) or self.acls[n][pos - 1] != ace:
                 return
             if len(self.acls[n]) == 1:
-                if self.acl_referenced(n):
-                    return
+                # the device removes the list together with the access-group commands naming it (Asa.tla)
+                self.binds = [b for b in self.binds if b["acl"] != n]
                 del self.acls[n]
             else:
                 del self.acls[n][pos - 1]
         elif ev == "AclClear":
             n = e["n"]
-            if n in self.acls and not self.acl_referenced(n):
+            if n in self.acls:
+                self.binds = [b for b in self.binds if b["acl"] != n]
                 del self.acls[n]
         elif ev == "GrpDelete":
             n = e["n"]
